@@ -91,31 +91,34 @@ rbf_kernel!(c10_rbf_kernel_d1, 1);
 // @vp name=c10_rbf_kernel_d3 prop=C10 tier=quick t=480 fns=RBFKernel::apply,Vec::sub,Vec::mul,Vec::sum size=d=3 dom=lattice(-4..4),gamma-k/4,f64 stubs=rec_exp64
 rbf_kernel!(c10_rbf_kernel_d3, 3);
 
-// polynomial: powf receives (gamma*<x,y> + coef0, degree); sigmoid: tanh receives gamma*<x,y> + coef0
-// @vp name=c10_polynomial_kernel_d2 prop=C10 tier=quick t=480 fns=PolynomialKernel::apply size=d=2 dom=lattice(-4..4),gamma-k/4,coef0-lattice,degree1..4,f64 stubs=rec_powf64
+// polynomial kernel of integer degree 1..4: VALUE against the closed form (gamma <x,y> + coef0)^degree (negative bases and even
+// degrees included), symmetric.  powf is replaced by its mathematical meaning for integer exponents (semantic stub), so the check
+// is about values and indifferent to how the power is computed; natively (replay) the real powf is used.
+// @vp name=c10_polynomial_kernel_d2 prop=C10 tier=quick t=480 fns=PolynomialKernel::apply size=d=2 dom=lattice(-4..4),gamma-k/4,coef0-lattice(-2..4),degree1..4,f64 stubs=powf_sem64
 #[cfg_attr(kani, kani::proof)]
 #[cfg_attr(kani, kani::unwind(6))]
-#[cfg_attr(kani, kani::stub(f64::powf, crate::common::rec_powf64))]
+#[cfg_attr(kani, kani::stub(f64::powf, crate::common::powf_sem64))]
 pub fn c10_polynomial_kernel_d2() {
     let (xi, x) = latvec::<2>(-4, 4);
     let (yi, y) = latvec::<2>(-4, 4);
     let g2 = lat(1, 8);
-    let c0 = lat(0, 4);
+    let c0 = lat(-2, 4);
     let deg = lat(1, 4);
     let k = Kernels::polynomial(deg as f64, g2 as f64 / 4.0, c0 as f64);
     let kxy: f64 = k.apply(&x, &y);
     let kyx: f64 = k.apply(&y, &x);
     let dot = xi[0] * yi[0] + xi[1] * yi[1];
-    let base = (g2 * dot) as f64 / 4.0 + c0 as f64;
-    if cfg!(vp_playback) {
-        let want = base.powi(deg);
-        vp_assert!((kxy - want).abs() <= 1e-9 * (1.0 + want.abs()) && (kyx - want).abs() <= 1e-9 * (1.0 + want.abs()), "C10:polynomial-kernel-closed-form");
-    } else {
-        vp_assert!(nlog64() == 4, "C10:polynomial-powf-calls");
-        vp_assert!(getlog64(0) == base && getlog64(1) == deg as f64, "C10:polynomial-kernel-closed-form");
-        vp_assert!(same64(getlog64(0), getlog64(2)) && same64(getlog64(1), getlog64(3)), "C10:polynomial-kernel-symmetric");
-        vp_assert!(kxy == base, "C10:polynomial-returns-power");
+    // 4 * base is an integer: base^deg = (4 base)^deg / 4^deg, exactly representable
+    let b4 = (g2 * dot + 4 * c0) as i64;
+    let mut num = 1i64;
+    let mut den = 1i64;
+    for _ in 0..deg {
+        num *= b4;
+        den *= 4;
     }
+    let want = num as f64 / den as f64;
+    vp_assert!((kxy - want).abs() <= 1e-9 * (1.0 + want.abs()), "C10:polynomial-kernel-closed-form");
+    vp_assert!((kyx - kxy).abs() <= 1e-9 * (1.0 + want.abs()), "C10:polynomial-kernel-symmetric");
     vp_reached!();
 }
 // @vp name=c10_polynomial_with_degree prop=C10 tier=quick t=300 fns=Kernels::polynomial_with_degree size=n_features=4 dom=concrete
